@@ -30,8 +30,11 @@ def gen_name(rng: random.Random, existing: list[str]) -> str:
         if rng.random() < 0.5 or base.upper() == 'INBOX':
             return base
         return base + '/' + rng.choice(PARTS)
-    depth = rng.choice([1, 1, 1, 2, 3])
+    depth = rng.choice([1, 1, 1, 2, 3, 3, 4])
     parts = [rng.choice(PARTS) for _ in range(depth)]
+    if depth >= 3 and rng.random() < 0.4:
+        # the same piece at several levels (a/b/a, a/a/a)
+        parts[rng.randrange(1, depth)] = parts[0]
     # inferiors of (a case variant of) INBOX are left open by the statement
     if depth > 1 and parts[0].upper() == 'INBOX':
         parts[0] = 'a'
@@ -54,6 +57,14 @@ def gen_ns_case(rng: random.Random, tier: str, backends=('dict',)) -> dict:
         if kind in ('list', 'lsub'):
             ref = ''
             pat = rng.choice(PATTERNS)
+            if rng.random() < 0.4:
+                # composed from wildcards, delimiters and pieces of existing
+                # names: */%, *a%, %/*/%, a*/%b ...
+                pieces = ['*', '%', '/', '*', '%', '/', 'a', 'b']
+                for n in names[:6]:
+                    pieces += [x for x in n.split('/') if x][:2]
+                pat = ''.join(rng.choice(pieces)
+                              for _ in range(rng.randint(2, 5)))
             if rng.random() < 0.25 and names:
                 ref = rng.choice(names).split('/')[0] + '/'
                 pat = rng.choice(['*', '%', '%/%', 'b', ''])
